@@ -7,6 +7,7 @@ import (
 	"encoding/json"
 	"fmt"
 	"hash"
+	"math/big"
 	"sort"
 	"strings"
 	"time"
@@ -14,6 +15,7 @@ import (
 	abci "github.com/cometbft/cometbft/abci/types"
 	sdk "github.com/cosmos/cosmos-sdk/types"
 	gogoproto "github.com/cosmos/gogoproto/proto"
+	"google.golang.org/protobuf/proto"
 )
 
 type Violation struct {
@@ -222,8 +224,24 @@ func NewWorld(property string, g *GenesisDoc, opts ChainOpts, ck Checker) (*Worl
 	if err != nil {
 		return nil, err
 	}
+	// the genesis must be one the modules' own validation accepts (else the generator is wrong)
+	if e := safeErr(func() error { return c.Eco.ValidateGenesis(c.Enc.Cdc, c.Enc.TxCfg, g.Eco) }); e != nil && !g.Unvalidated {
+		return nil, fmt.Errorf("generated ecocredit genesis rejected by ValidateGenesis: %w", e)
+	}
+	if e := safeErr(func() error { return c.Dat.ValidateGenesis(c.Enc.Cdc, c.Enc.TxCfg, g.Data) }); e != nil && !g.Unvalidated {
+		return nil, fmt.Errorf("generated data genesis rejected by ValidateGenesis: %w", e)
+	}
 	if err := c.InitChain(g); err != nil {
-		return nil, err
+		// A genesis accepted by the modules' validation that cannot be imported: C09.R2. For every
+		// other property the run cannot start (not their business).
+		w.Chain = c
+		w.Cur = &Snapshot{Rows: map[string][]proto.Message{}, Bank: map[string]map[string]*big.Int{}, Supply: map[string]*big.Int{}}
+		w.Aborted = true
+		if property == "C09" {
+			w.Violate("R2", "validated-genesis-cannot-be-imported", "a genesis accepted by ValidateGenesis cannot be imported into an empty chain: %s", firstLine(err.Error()))
+		}
+		w.Probe("run_aborted_genesis_import_failed")
+		return w, nil
 	}
 	w.Chain = c
 	w.Obs = NewObserver(c)
@@ -290,6 +308,9 @@ func (w *World) noteState(s *Snapshot) {
 // Exec executes one step. It returns false when the run must stop (violation
 // or harness failure).
 func (w *World) Exec(st *Step) bool {
+	if w.Aborted {
+		return false
+	}
 	defer func() { w.StepIdx++ }()
 	w.Stats.Steps++
 	w.Executed = append(w.Executed, st)
@@ -875,7 +896,7 @@ func safeInv(inv NamedInvariant, ctx sdk.Context) (msg string, broken bool) {
 
 // Finish ends a run: close an open block, let the checker conclude.
 func (w *World) Finish() {
-	if w.Viol == nil && len(w.Harness) == 0 && w.Checker != nil {
+	if w.Viol == nil && len(w.Harness) == 0 && w.Checker != nil && !w.Aborted {
 		w.Checker.End(w)
 		w.Stats.NonTrivial = w.Checker.NonTrivial(w)
 	}
